@@ -357,12 +357,12 @@ func (s *c18qstream) CancelRead(quic.StreamErrorCode) {
 	s.signal()
 	s.mu.Unlock()
 }
-func (s *c18qstream) CancelWrite(quic.StreamErrorCode)   { s.mu.Lock(); s.wdead = true; s.mu.Unlock() }
-func (s *c18qstream) SetDeadline(time.Time) error        { return nil }
-func (s *c18qstream) SetReadDeadline(time.Time) error    { return nil }
-func (s *c18qstream) SetWriteDeadline(time.Time) error   { return nil }
-func (s *c18qstream) StreamID() quic.StreamID            { return 0 }
-func (s *c18qstream) Context() context.Context           { return s.c.ctx }
+func (s *c18qstream) CancelWrite(quic.StreamErrorCode) { s.mu.Lock(); s.wdead = true; s.mu.Unlock() }
+func (s *c18qstream) SetDeadline(time.Time) error      { return nil }
+func (s *c18qstream) SetReadDeadline(time.Time) error  { return nil }
+func (s *c18qstream) SetWriteDeadline(time.Time) error { return nil }
+func (s *c18qstream) StreamID() quic.StreamID          { return 0 }
+func (s *c18qstream) Context() context.Context         { return s.c.ctx }
 
 // ---------------------------------------------------------------- one manual case
 
@@ -612,7 +612,7 @@ func (h *c18man) start(e int, stub bool) {
 	if pendingShared {
 		c18Until(c18Grace, ev) // the caller joins the pending dial: nothing to see
 	} else {
-		c18Until(c18Settle, ev)
+		c18Wait(ev)
 	}
 }
 
@@ -634,7 +634,7 @@ func (h *c18man) release(e int, ok bool) {
 	}
 	closed := h.isClosed()
 	g.ch <- ok
-	c18Until(c18Settle, func() bool {
+	c18Wait(func() bool {
 		if !h.settled() || !h.dialsRegistered() {
 			return false
 		}
@@ -692,7 +692,7 @@ func (h *c18man) reply(e int) {
 	if !rep(c18Reply(q)) {
 		return // the connection is gone
 	}
-	c18Until(c18Settle, func() bool {
+	c18Wait(func() bool {
 		h.mu.Lock()
 		d := x.done
 		h.mu.Unlock()
@@ -717,7 +717,7 @@ func (h *c18man) cancelEx(e int) {
 	x.cancelled = true
 	h.mu.Unlock()
 	x.cancel()
-	c18Until(c18Settle, func() bool { h.mu.Lock(); defer h.mu.Unlock(); return x.done })
+	c18Wait(func() bool { h.mu.Lock(); defer h.mu.Unlock(); return x.done })
 }
 
 func (h *c18man) timer() {
@@ -728,7 +728,7 @@ func (h *c18man) timer() {
 		return
 	}
 	time.Sleep(h.idle + h.idle/2)
-	c18Until(c18Settle, func() bool {
+	c18Wait(func() bool {
 		want := 0
 		if h.kind == "reuse" {
 			// connections on which an abandoned worker still waits for its reply are not idle
@@ -804,8 +804,8 @@ func c18RunManual(m map[string]string, ops []string, withTimer bool) (out string
 			if firstClose {
 				firstClose = false
 				// ordinary gates return when the transport's context is cancelled
-				c18Until(c18Settle, func() bool { return h.ordinaryGates() == 0 })
-				c18Until(c18Settle, func() bool { return len(h.blockedIds(true)) == 0 && h.settled() })
+				c18Wait(func() bool { return h.ordinaryGates() == 0 })
+				c18Wait(func() bool { return len(h.blockedIds(true)) == 0 && h.settled() })
 				atc = c18Ids(h.blockedIds(false))
 			}
 		}
@@ -824,7 +824,7 @@ func c18RunManual(m map[string]string, ops []string, withTimer bool) (out string
 		for _, e := range pend {
 			h.release(e, true)
 		}
-		c18Until(c18Settle, func() bool { return h.openConns() == 0 && len(h.blockedIds(false)) == 0 })
+		c18Wait(func() bool { return h.openConns() == 0 && len(h.blockedIds(false)) == 0 })
 	}
 	h.mu.Lock()
 	var parts []string
@@ -861,7 +861,10 @@ func c18RunManual(m map[string]string, ops []string, withTimer bool) (out string
 		x.cancel()
 	}
 	h.mu.Unlock()
-	go h.t.Close()
+	go func() {
+		defer func() { recover() }()
+		h.t.Close()
+	}()
 	return out, slow
 }
 
@@ -869,7 +872,7 @@ func c18CloseRun(c string) string {
 	m := kv(c)
 	ops := c18List(m["ops"])
 	if m["auto"] == "1" {
-		return c18RunAuto(m, ops)
+		return c18Retry(func() string { return c18RunAuto(m, ops) })
 	}
 	withTimer := false
 	for _, op := range ops {
@@ -877,15 +880,17 @@ func c18CloseRun(c string) string {
 			withTimer = true
 		}
 	}
-	var out string
-	for try := 0; try < 3; try++ {
-		var slow bool
-		out, slow = c18RunManual(m, ops, withTimer)
-		if !slow {
-			break
+	return c18Retry(func() string {
+		var out string
+		for try := 0; try < 3; try++ {
+			var slow bool
+			out, slow = c18RunManual(m, ops, withTimer)
+			if !slow {
+				break
+			}
 		}
-	}
-	return out
+		return out
+	})
 }
 
 // ---------------------------------------------------------------- generator
